@@ -14,16 +14,18 @@ Cwd  == P(TRUE, Cfg.cwd)
 Esm  == Cfg.esm
 
 DirNames  == IF Small THEN { Dot, DotDot, <<"d">>, <<"x", ".", "y">> }
-             ELSE { Dot, DotDot, <<"d">>, <<"e">>, <<"x", ".", "y">>, <<"d", ".", "t", "s">> }
+             ELSE { Dot, DotDot, <<"d">>, <<".", "h">>, <<".", ".", "v">>, <<"x", ".", "y">>, <<"d", ".", "t", "s">> }
+             \* (.h, ..v: ordinary names that begin with dots - a specifier still has to start with ./ or ../)
 FileNames == { <<"A", ".", "t", "s">>, <<"a", ".", "b", ".", "t", "s">>, <<"t", "s", ".", "t", "s">>,
-               <<"x", ".", "t", "s", ".", "t", "s">>, <<"j", ".", "j", "s", ".", "t", "s">> }
+               <<"x", ".", "t", "s", ".", "t", "s">>, <<"j", ".", "j", "s", ".", "t", "s">>, <<".", "h", ".", "t", "s">> }
 
 \* spellings of the export directory
 Bases == { P(FALSE, <<Dot, <<"b">>>>),                            \* ./b          (the default shape)
-           P(FALSE, <<<<"b">>>>),                                 \* b
            P(TRUE,  Cwd.cs \o <<<<"b">>>>),                       \* absolute
-           P(FALSE, <<<<"o">>, DotDot, <<"b">>, Dot>>),           \* o/../b/.
            P(TRUE,  <<<<"r">>>>) }                                \* /r : shallow, so that ../.. leaves the root
+         \cup (IF Cfg.fewbases THEN {} ELSE
+           { P(FALSE, <<<<"b">>>>),                               \* b
+             P(FALSE, <<<<"o">>, DotDot, <<"b">>, Dot>>) })       \* o/../b/.
 
 \* The importing file's own name never enters the computation (only its directory does), so it
 \* is fixed; the imported file ranges over all names.  Paths are grown one component per step so
